@@ -408,6 +408,7 @@ type LoopSpec struct {
 	// lemma(args)"; prev(e) is e at the loop head of the same iteration).
 	Applies     []Clause
 	HeadApplies []Clause // instances assumed at the loop head ("apply_head")
+	Assumed     []Clause // assumed at the loop head without proof ("assume_invariant"; reported)
 }
 
 type ParamDecl struct {
@@ -436,6 +437,10 @@ type FuncSpec struct {
 	Uses      []string // lemmas assumed (as quantified facts) while verifying this function
 	Applies   []Clause // lemma instances assumed at function entry
 	ExitApplies []Clause // lemma instances assumed at the (merged) return point
+	// calls through unknown function values (callbacks) made by this function
+	CbRequires []Clause
+	CbEnsures  []Clause
+	CbModifies []string
 }
 
 type SpecFn struct {
@@ -448,6 +453,7 @@ type SpecFn struct {
 	Ensures   []Clause
 	Recursive bool
 	Opaque    bool
+	Inline    bool // a macro: the body is evaluated in the caller's state (may read memory)
 	Pkg       string
 }
 
@@ -465,6 +471,19 @@ type LemmaSpec struct {
 }
 
 // LemmaCall is "call r = F(args)" inside a lemma: F is applied by contract.
+// MonitorSpec: the mutex field protects state described by an invariant.
+// Lock forgets the protected locations and assumes the invariant (other
+// goroutines may have run); Unlock must re-establish it.
+type MonitorSpec struct {
+	Var        string // name of the enclosing object in the clauses
+	Pkg        string
+	Invariants []Clause
+	// Assumed invariants are taken for granted when the lock is acquired
+	// but are NOT proved at Unlock (reported as unchecked assumptions).
+	Assumed  []Clause
+	Modifies []string
+}
+
 type LemmaCall struct {
 	Result string
 	Fn     string
@@ -473,6 +492,12 @@ type LemmaCall struct {
 }
 
 type ContractSet struct {
+	// Embedded: "pkgpath.Type.field" of struct-typed fields whose address is
+	// stored in memory (intrusive lists): they are addressed as objects of
+	// their own.  Guarded: "pkgpath.Type.field" -> name of the mutex field.
+	Embedded map[string]bool
+	Guarded  map[string]string
+	Monitors map[string]*MonitorSpec // "pkgpath.Type.mutexfield"
 	Funcs   map[string]*FuncSpec // key: pkgpath + "." + name  (externs: name)
 	SpecFns map[string]*SpecFn
 	Lemmas  map[string]*LemmaSpec
@@ -480,13 +505,13 @@ type ContractSet struct {
 }
 
 func newContractSet() *ContractSet {
-	return &ContractSet{Funcs: map[string]*FuncSpec{}, SpecFns: map[string]*SpecFn{}, Lemmas: map[string]*LemmaSpec{}}
+	return &ContractSet{Funcs: map[string]*FuncSpec{}, SpecFns: map[string]*SpecFn{}, Lemmas: map[string]*LemmaSpec{}, Embedded: map[string]bool{}, Guarded: map[string]string{}, Monitors: map[string]*MonitorSpec{}}
 }
 
 var clauseKeywords = map[string]bool{
 	"requires": true, "ensures": true, "modifies": true, "loop": true, "invariant": true,
 	"decreases": true, "func": true, "extern": true, "spec": true, "lemma": true, "pure": true,
-	"inline": true, "panics": true, "trusted": true, "induction": true, "use": true, "def": true, "call": true, "apply": true, "apply_head": true, "apply_exit": true, "opaque": true, "residual": true,
+	"inline": true, "panics": true, "trusted": true, "induction": true, "use": true, "def": true, "call": true, "apply": true, "apply_head": true, "apply_exit": true, "opaque": true, "embedded": true, "guarded": true, "callback": true, "monitor": true, "assume_invariant": true, "residual": true,
 }
 
 // parseContractText parses the body of one or more /*@ ... @*/ blocks (already
@@ -517,12 +542,13 @@ func (cs *ContractSet) parseContractText(text, pkgPath, file string) error {
 	var curL *LoopSpec
 	var curS *SpecFn
 	var curLem *LemmaSpec
+	var curMon *MonitorSpec
 	for _, it := range items {
 		kw, rest := splitKW(it)
 		var err error
 		switch kw {
 		case "func", "extern":
-			curL, curS, curLem = nil, nil, nil
+			curL, curS, curLem, curMon = nil, nil, nil, nil
 			f := &FuncSpec{Pkg: pkgPath, Loops: map[int]*LoopSpec{}, File: file}
 			if kw == "extern" {
 				kw2, r2 := splitKW(rest)
@@ -547,7 +573,7 @@ func (cs *ContractSet) parseContractText(text, pkgPath, file string) error {
 			cs.Order = append(cs.Order, key)
 			curF = f
 		case "spec":
-			curF, curL, curLem = nil, nil, nil
+			curF, curL, curLem, curMon = nil, nil, nil, nil
 			kw2, r2 := splitKW(rest)
 			if kw2 != "fn" {
 				return fmt.Errorf("%s: expected 'spec fn'", file)
@@ -563,7 +589,7 @@ func (cs *ContractSet) parseContractText(text, pkgPath, file string) error {
 			cs.SpecFns[s.Name] = s
 			curS = s
 		case "lemma":
-			curF, curL, curS = nil, nil, nil
+			curF, curL, curS, curMon = nil, nil, nil, nil
 			l := &LemmaSpec{Pkg: pkgPath}
 			name, params, _, err := parseSig(rest)
 			if err != nil {
@@ -572,6 +598,20 @@ func (cs *ContractSet) parseContractText(text, pkgPath, file string) error {
 			l.Name, l.Params = name, params
 			cs.Lemmas[l.Name] = l
 			curLem = l
+		case "assume_invariant":
+			label, src := splitLabel(rest)
+			e, err := parseExpr(src)
+			if err != nil {
+				return fmt.Errorf("%s: assume_invariant: %v", file, err)
+			}
+			switch {
+			case curL != nil:
+				curL.Assumed = append(curL.Assumed, Clause{Label: label, Src: src, E: e})
+			case curMon != nil:
+				curMon.Assumed = append(curMon.Assumed, Clause{Label: label, Src: src, E: e})
+			default:
+				return fmt.Errorf("%s: assume_invariant outside monitor or loop", file)
+			}
 		case "requires", "ensures", "invariant", "decreases":
 			label, src := splitLabel(rest)
 			e, err := parseExpr(src)
@@ -580,6 +620,8 @@ func (cs *ContractSet) parseContractText(text, pkgPath, file string) error {
 			}
 			cl := Clause{Label: label, Src: src, E: e}
 			switch {
+			case kw == "invariant" && curMon != nil && curL == nil:
+				curMon.Invariants = append(curMon.Invariants, cl)
 			case kw == "invariant" && curL != nil:
 				curL.Invariants = append(curL.Invariants, cl)
 			case kw == "decreases" && curL != nil:
@@ -662,9 +704,58 @@ func (cs *ContractSet) parseContractText(text, pkgPath, file string) error {
 			default:
 				return fmt.Errorf("%s: misplaced apply", file)
 			}
+		case "monitor":
+			// monitor <var> <Type>.<mutexfield>
+			fs := strings.Fields(rest)
+			if len(fs) != 2 {
+				return fmt.Errorf("%s: monitor <var> <Type>.<field>", file)
+			}
+			curF, curL, curS, curLem = nil, nil, nil, nil
+			curMon = &MonitorSpec{Var: fs[0], Pkg: pkgPath}
+			cs.Monitors[pkgPath+"."+fs[1]] = curMon
+		case "embedded":
+			for _, n := range splitComma(rest) {
+				cs.Embedded[pkgPath+"."+n] = true
+			}
+		case "guarded":
+			// guarded T.f, T.g by mu
+			i := strings.LastIndex(rest, " by ")
+			if i < 0 {
+				return fmt.Errorf("%s: guarded ... by <mutex field>", file)
+			}
+			for _, n := range splitComma(rest[:i]) {
+				cs.Guarded[pkgPath+"."+n] = strings.TrimSpace(rest[i+4:])
+			}
+		case "callback":
+			// callback requires|ensures|modifies ...: about calls through
+			// function values of unknown origin made by this function
+			if curF == nil {
+				return fmt.Errorf("%s: callback clause outside func", file)
+			}
+			kw2, r2 := splitKW(rest)
+			switch kw2 {
+			case "modifies":
+				curF.CbModifies = append(curF.CbModifies, splitComma(r2)...)
+			case "requires", "ensures":
+				label, src := splitLabel(r2)
+				e, err := parseExpr(src)
+				if err != nil {
+					return fmt.Errorf("%s: callback %s: %v", file, kw2, err)
+				}
+				cl := Clause{Label: label, Src: src, E: e}
+				if kw2 == "requires" {
+					curF.CbRequires = append(curF.CbRequires, cl)
+				} else {
+					curF.CbEnsures = append(curF.CbEnsures, cl)
+				}
+			default:
+				return fmt.Errorf("%s: callback requires|ensures|modifies", file)
+			}
 		case "modifies":
 			names := splitComma(rest)
-			if curL != nil {
+			if curMon != nil && curF == nil {
+				curMon.Modifies = append(curMon.Modifies, names...)
+			} else if curL != nil {
 				curL.Modifies = append(curL.Modifies, names...)
 			} else if curF != nil {
 				curF.Modifies = append(curF.Modifies, names...)
@@ -683,13 +774,15 @@ func (cs *ContractSet) parseContractText(text, pkgPath, file string) error {
 			if curS != nil {
 				curS.Opaque = true
 			}
+		case "inline":
+			if curS != nil {
+				curS.Inline = true
+			} else if curF != nil {
+				curF.Inline = true
+			}
 		case "pure":
 			if curF != nil {
 				curF.Pure = true
-			}
-		case "inline":
-			if curF != nil {
-				curF.Inline = true
 			}
 		case "trusted":
 			if curF != nil {
